@@ -365,7 +365,11 @@ def install(w):
     w.concretize = concretize
 
     def p(fn):
-        return lambda it, *a: VBool(fn(*[x.t for x in a]))
+        def h(it, *a):
+            if not all(isinstance(x, (VTy, VRef)) for x in a):
+                return VBool(False)   # not a type object (e.g. None): no type predicate holds
+            return VBool(fn(*[x.t for x in a]))
+        return h
     w.spec_funcs.update({
         "EqT": p(EQT), "Sub": p(SUB), "Compat": p(COMPAT), "SameShapeW": p(SHAPE),
         "InputTy": p(INPUT), "OutputTy": p(OUTPUT),
